@@ -105,6 +105,8 @@ def render_deps(n, path, key):
             opts.append(f"gapduration {fmt_dur(d['gap'])}")
         if d.get("gaplen"):
             opts.append(f"gaplength {fmt_dur(d['gaplen'])}")
+        if d.get("maxgap"):
+            opts.append(f"maxgapduration {fmt_dur(d['maxgap'])}")
         if d.get("onstart"):
             opts.append("onstart")
         o = (" { " + " ".join(opts) + " }") if opts else ""
@@ -129,7 +131,7 @@ def render(ap, rename=None, extra_tail=""):
     for (a, b) in ap.get("vac", []):
         L.append(f'vacation "v" {fmt_date(a)}' + (f" - {fmt_date(b)}" if b is not None else ""))
     for (a, b) in ap.get("gleaves", []):
-        L.append(f'leaves holiday "h" {fmt_date(a)}' + (f" - {fmt_date(b)}" if b is not None else ""))
+        L.append(f'leaves {ap.get("gleave_kind", "holiday")} "h" {fmt_date(a)}' + (f" - {fmt_date(b)}" if b is not None else ""))
     for sid, tbl in ap.get("shifts", {}).items():
         L.append(f'shift {R("shift", sid)} "{sid}" {{')
         L += render_hours(tbl, "  ")
@@ -425,6 +427,8 @@ def encode_core(ap, obs_end):
         if leaf and n.get("effort") is not None:
             if n.get("alt") or n.get("sched") or n.get("end") is not None:
                 raise NotCore("alternatives / task-level mode / end")
+            if any(x not in rnum for x in n["alloc"]):
+                raise NotCore("resource group in an allocation")
             team = [rnum[x] for x in n["alloc"]]
             eff = max(float(ridx[[q for q in ridx if q[-1] == x][0]].get("eff") or 1.0) for x in n["alloc"])
             need_f = n["effort"] * 60.0 / (G * eff)
